@@ -32,19 +32,7 @@ def gen_scenario(rng, prof=None):
     locals_ = [l[3:] for l in base if l.startswith("cb local")]
     # sprinkle clock / random reads into some rules
     rules2 = []
-    # termination by construction: a rule that sends or sets a timer strictly increases the control state,
-    # and control state 3 has no productive rules, so every process produces finitely many events
-    fixed = []
-    for r in rules:
-        w = r.split()
-        st = int(w[2]); acts = w[5:]
-        productive = any(a[0] in "STO" for a in acts)
-        if productive:
-            if st >= 3:
-                acts = [a for a in acts if a[0] not in "STO"]
-            w[4] = str(st + 1)
-        fixed.append(" ".join(w[:5] + acts))
-    rules = fixed
+    rules = mc_suite.make_terminating(rules)
     for r in rules:
         if rng.random() < prof["p_clock"]:
             r += f" K:m{rng.randint(0, 2)}"
